@@ -175,6 +175,10 @@ fn cli_case(ctx: &Ctx, ch: &mut Ch, scratch: &cli::Scratch, launches: usize) -> 
     let mut diag_count = 0;
     for sub in ["check", "run"] {
         let first = cli::run(sub, &scratch.dir, "input.g").map_err(|e| Failure::new(e, "cli"))?;
+        if first.status == cli::TIMEOUT_STATUS {
+            ctx.inconclusive("cli: a run was still going after 10 s");
+            continue;
+        }
         if sub == "check" {
             diag_count = String::from_utf8_lossy(&first.stderr).matches("[Error]").count();
         }
